@@ -15,6 +15,8 @@ EXTRA = {"C01-C": ["C07"], "C02-C": ["C16", "C10"], "C03-C": ["C16", "C10"], "C0
          "C20-C": ["C17"], "C12-D": ["C17"], "C07-D": ["C17"], "C01-D": ["C17", "C07"], "C10-D": ["C17"], "C08-C": ["C18"], "C18-D": ["C08"], "C16-C": ["C17"], "C19-C": ["C02"], "C09-D": ["C03"], "C05-C": ["C11"],
          "C02-E": ["C10"], "C02-F": ["C03", "C09"], "C06-E": ["C01", "C07"], "C06-F": ["C17"], "C07-E": ["C01"], "C07-F": ["C13"], "C08-E": ["C18", "C10", "C16"], "C08-F": ["C15"],
          "C09-E": ["C02"], "C10-E": ["C08", "C16"], "C10-F": ["C02"], "C16-E": ["C17"], "C16-F": ["C18", "C05"], "C18-E": ["C10"], "C18-F": ["C02", "C04"], "C04-F": ["C08"],
+         "C01-E": ["C07"], "C01-F": ["C06"], "C05-E": ["C08"], "C05-F": ["C02"], "C12-E": ["C11"], "C12-F": ["C02", "C10"], "C13-E": ["C14"], "C13-F": ["C14"], "C14-E": ["C13"], "C14-F": ["C17"],
+         "C15-E": ["C05"], "C15-F": ["C05"], "C17-F": ["C18"], "C19-E": ["C01"], "C19-F": ["C01"],
          "C02-B": ["C16"], "C05-B": ["C16"], "C07-B": ["C17"], "C13-B": ["C17"], "C03-B": ["C10"], "C10-A": ["C03"], "C16-B": ["C05"], "C08-B": ["C03", "C04"], "C01-B": ["C06"], "C06-B": ["C01"]}
 
 def sh(cmd, **kw):
@@ -26,12 +28,12 @@ def main():
     titles = {p["id"]: p["title"] for p in props}
     items = []
     for d in sorted(os.listdir(SRC)):
-        m = re.fullmatch(r"(C\d\d)([abc])", d)
+        m = re.fullmatch(r"(C\d\d)([abcd])", d)
         if not m:
             continue
         for x in "AB":
-            # second-round changes (directories CNNb) are filed as C and D, third-round ones (CNNc) as E and F
-            sid = f"{m.group(1)}-{ {'a': {'A': 'A', 'B': 'B'}, 'b': {'A': 'C', 'B': 'D'}, 'c': {'A': 'E', 'B': 'F'}}[m.group(2)][x] }"
+            # second-round changes (directories CNNb) are filed as C and D, third-round ones (CNNc) as E and F, fourth-round ones (CNNd) as G and H
+            sid = f"{m.group(1)}-{ {'a': {'A': 'A', 'B': 'B'}, 'b': {'A': 'C', 'B': 'D'}, 'c': {'A': 'E', 'B': 'F'}, 'd': {'A': 'G', 'B': 'H'}}[m.group(2)][x] }"
             if todo and sid not in todo:
                 continue
             patch = f"{SRC}/{d}/patch{x}.ported.diff"
